@@ -184,12 +184,13 @@ func c01One(r *fw.Rec, id, variant, x string, unrep bool) {
 		cls := "translate-reject"
 		if strings.Contains(perr.Error(), "into an AST") {
 			cls = "grammar-reject"
-			// a predicate-defined family: constant expressions of opcodes LLVM 14 still
-			// has and the llir/ll grammar no longer knows, named by the opcode on the
-			// line the syntax error points at
+			// constant expressions of opcodes LLVM 14 still has and neither the llir/ll
+			// grammar nor package constant knows (there is no constant.ExprUDiv, ...,
+			// constant.ExprExtractValue): constructs the IR cannot represent, reported
+			// as an error -- the specified behaviour. The opcode is the one on the
+			// line the syntax error points at.
 			if op := removedConstExprOpcode(x, perr.Error()); op != "" {
-				r.Violate(fw.Violation{Key: "grammar-reject/class:constant-expression-" + op, Input: x,
-					What: "a module LLVM accepts (" + id + "/" + variant + ") is rejected by the parser: " + firstLine(perr.Error()) + " (constant expression `" + op + " (...)`)"})
+				r.Tally("unrepresentable", "constant-expression-"+op+"-reported-as-error")
 				return
 			}
 		}
@@ -319,10 +320,11 @@ var reFloatTok = regexp.MustCompile(`^0x[0-9A-F]{16}$|^0x[HKLMR][0-9A-F]+$`)
 //	than the canonical quiet NaN and the output literal is the canonical quiet NaN
 //	of the same kind and sign.
 var reSyntaxLine = regexp.MustCompile(`syntax error at line ([0-9]+)`)
-var reRemovedConstExpr = regexp.MustCompile(`\b(udiv|sdiv|urem|srem|fadd|fsub|fmul|fdiv|frem) (?:exact )?\(`)
+var reRemovedConstExpr = regexp.MustCompile(`\b(udiv|sdiv|urem|srem|fadd|fsub|fmul|fdiv|frem|extractvalue|insertvalue) (?:exact )?\(`)
 
 // removedConstExprOpcode returns the opcode of a udiv/sdiv/urem/srem/fadd/
-// fsub/fmul/fdiv/frem constant expression on the line a syntax error names.
+// fsub/fmul/fdiv/frem/extractvalue/insertvalue constant expression on the line
+// a syntax error names.
 func removedConstExprOpcode(x, errText string) string {
 	m := reSyntaxLine.FindStringSubmatch(errText)
 	if m == nil {
